@@ -85,12 +85,15 @@ def render_items(items, lang, fid, out):
         elif t == "undef":
             out.append(("dir", f"#undef {it[1]}"))
         elif t == "include":
+            style = it[3] if len(it) > 3 else None
+            kw = {"sp": "#  include", "tab": "#\tinclude", "lead": "  #include"}.get(style, "#include")
+            tail = {"cmt": " /* why */", "lcmt": " // why"}.get(style, "") if lang != "f90" else ""
             if it[1] == "q":
-                out.append(("dir", f'#include "{it[2]}"'))
+                out.append(("dir", f'{kw} "{it[2]}"{tail}'))
             elif it[1] == "a":
-                out.append(("dir", f"#include <{it[2]}>"))
+                out.append(("dir", f"{kw} <{it[2]}>{tail}"))
             else:
-                out.append(("dir", f"#include {it[2]}"))
+                out.append(("dir", f"{kw} {it[2]}{tail}"))
         elif t == "once":
             out.append(("dir", "#pragma once"))
         elif t == "directive":
